@@ -24,11 +24,11 @@ func run(c *hc.Ctx) error {
 	n := c.N(800, 15000)
 	for i := 0; i < n; i++ {
 		sc, plain := mgr.Gen(c.Rng, mgr.GenOptions{Channels: hc.Pick(c.Rng, 0, 1, 1, 2), TooLong: true,
-			Wait: c.Thorough() && i < 400, MaxEntries: hc.Pick(c.Rng, 4, 8, 12), Affected: c.Rng.Chance(50), Foreign: c.Rng.Chance(40), Faults: c.Rng.Chance(30), Fresh: c.Rng.Chance(50), Seq: c.Rng.Chance(40), Users: c.Rng.Chance(35), Private: c.Rng.Chance(35)})
+			Wait: c.Thorough() && i < 400, MaxEntries: hc.Pick(c.Rng, 4, 8, 12), Affected: c.Rng.Chance(50), Foreign: c.Rng.Chance(40), Faults: c.Rng.Chance(30), Fresh: c.Rng.Chance(50), Seq: c.Rng.Chance(40), Users: c.Rng.Chance(35), Private: c.Rng.Chance(35), First: c.Rng.Chance(20)})
 		r.Evaluate(sc, plain)
 	}
 	r.Flush()
-	c.Res.Rule = "scenario = initial persisted state + finite server log (new messages, pts-bearing deletes with count 1..3, qts updates, channel messages/deletes, position-less updates; channels are stored, or unknown to the storage and met during the run through a live update (count >= 1 or 0) or an update forwarded inside a difference, with the access hash known from the start or learnt by an action K; channels may become inaccessible (CHANNEL_PRIVATE: worker stops, channel forgotten) and accessible again) + schedule (containers unnumbered or numbered with seq/seq_start — seq gaps, duplicated and late containers, the seq gap timer; messages from users whose access hash is unknown (the container is dropped, the difference fetched); in-order pushes, batches, losses, late arrivals, duplicates, forced common/channel recoveries, sliced differences, too-long answers; thorough: waiting out the real 500 ms gap timer) + final recovery; every storage-write boundary is a crash point for the prefix check, and up to MaxRestarts of them per scenario are replayed as crash+restart+recovery; non-trivial = at least one update was lost (had to be recovered by a difference); distinct = distinct scenario line"
+	c.Res.Rule = "scenario = initial persisted state (or none: the very first start, after part of the log has happened) + finite server log (new messages, pts-bearing deletes with count 1..3, qts updates, channel messages/deletes, position-less updates; channels are stored, or unknown to the storage and met during the run through a live update (count >= 1 or 0) or an update forwarded inside a difference, with the access hash known from the start or learnt by an action K; channels may become inaccessible (CHANNEL_PRIVATE: worker stops, channel forgotten) and accessible again) + schedule (containers unnumbered or numbered with seq/seq_start — seq gaps, duplicated and late containers, the seq gap timer; messages from users whose access hash is unknown (the container is dropped, the difference fetched); in-order pushes, batches, losses, late arrivals, duplicates, forced common/channel recoveries, sliced differences, too-long answers; thorough: waiting out the real 500 ms gap timer) + final recovery; every storage-write boundary is a crash point for the prefix check, and up to MaxRestarts of them per scenario are replayed as crash+restart+recovery; non-trivial = at least one update was lost (had to be recovered by a difference); distinct = distinct scenario line"
 	c.PartialNote("goroutine scheduling between two harness actions is whatever the Go scheduler does (the harness waits for quiescence after every action and compares each process's own event order; the interleaving of different processes' events is not compared)")
 	c.PartialNote("a process kill is modelled by 'no further steps' + restart from a snapshot of the in-memory StateStorage taken at the write boundary; durability of a real storage backend is assumed")
 	c.PartialNote("the real gap timer (500 ms) is only exercised in the thorough tier; the model takes 'timer fired' as an input action")
